@@ -204,12 +204,62 @@ def oracle(ctx, rng, n):
             ctx.violation("c13-coolant-average-weights", "weights of the pin-adjacent coolant average sum to %.15g" % w[np.argmax(np.abs(w - 1))])
 
 
+def generate(ctx):
+    """T1: the real PinModel.calc_clad_temps is executed symbolically for one pin with a cladding of constant conductivity (the
+    conductivity iteration then stops after its first pass); Gen/C13Clad.lean holds the three returned temperatures and the
+    theorems: film drop = q' / (2 pi r_o h), clad OD -> ID drop = q' ln(r_o/r_i) / (2 pi k), clad OD -> mid-wall drop =
+    q' ln(r_o/r_m) / (2 pi k), with q' = q / dz - the closed-form cylindrical-conduction values of the property (the logarithms
+    are the geometry constants the model stores; their values are checked by the oracle)."""
+    import re
+    from dassh.pin_model import PinModel
+    from harness.trace import NpProxy, Sym, Trace, rebind, symarray, to_lean, used_vars
+    tr = Trace()
+
+    class O:
+        pass
+    o = O()
+    kvar = tr.var("k", 22.0)
+    o.clad = {'r': [tr.var("r_i", 2.5e-3), tr.var("r_m", 2.75e-3), tr.var("r_o", 3.0e-3)], 'ln_r2r': tr.var("ln_oi", math.log(3.0 / 2.5)),
+              'ln_r2r_2node': [tr.var("ln_mi", math.log(2.75 / 2.5)), tr.var("ln_om", math.log(3.0 / 2.75))],
+              'k': lambda T: np.full(np.shape(T), kvar, dtype=object)}
+    o.log = lambda *a, **k: None
+    q = symarray(tr, "q", np.array([250.0]))
+    Tc = symarray(tr, "Tc", np.array([700.0]))
+    T = rebind(PinModel.calc_clad_temps, tr)(o, q, tr.var("dz", 0.01), Tc, tr.var("h", 9.0e4))
+    fix = lambda t: re.sub(r"\((\d+) : α\)", r"(\1 : K)", t)
+    row = [x if isinstance(x, Sym) else tr.const(x) for x in np.ravel(T)]
+    vs = sorted(used_vars(row))
+    L = ["-- GENERATED by /verif/harness (C13, cladding): traced from dassh.pin_model.PinModel.calc_clad_temps (constant conductivity).",
+         "import Mathlib.Algebra.Order.Field.Basic", "import Mathlib.Tactic.FieldSimp", "import Mathlib.Tactic.Ring", "import Dassh.Lemmas.Attr", "",
+         "namespace Dassh.Gen.C13Clad", "", "variable {K : Type} [Field K] [LinearOrder K] [IsStrictOrderedRing K]", "",
+         "set_option linter.unusedVariables false", ""]
+    args = " ".join(vs)
+    for nm, e in (("clad_od", row[0]), ("clad_mw", row[1]), ("clad_id", row[2])):     # (the method returns OD, MW, ID)
+        L.append("@[gen_defs] def %s (%s : K) : K :=\n  %s\n" % (nm, args, fix(to_lean(e))))
+    hyps = " ".join("(h_%s : 0 < %s)" % (v, v) for v in vs if v not in ("q_0", "Tc_0"))
+    lnmw = [v for v in ("ln_om", "ln_mi") if v in vs]
+    L.append("/-- film, clad and mid-wall drops of the traced cladding solution are the closed-form cylindrical-conduction values -/")
+    L.append("theorem clad_drops (%s : K) %s :\n    clad_od %s - Tc_0 = q_0 / dz / (2 * pi * r_o * h)\n"
+             "    ∧ clad_id %s - clad_od %s = q_0 / dz * ln_oi / (2 * pi * k)\n"
+             "    ∧ clad_mw %s - clad_od %s = q_0 / dz * %s / (2 * pi * k) := by"
+             % (args, hyps, args, args, args, args, args, lnmw[0] if lnmw else "ln_om"))
+    L.append("  refine ⟨?_, ?_, ?_⟩ <;>\n  · simp only [gen_defs]\n    field_simp\n    try ring\n")
+    L.append("end Dassh.Gen.C13Clad\n")
+    ctx.gen("C13Clad", "\n".join(L))
+    return ["Dassh.Gen.C13Clad.clad_drops"]
+
+
 def run(ctx):
     rng = random.Random(13000 + ctx.seed)
     ctx.rule = ("generated pin models: metal fuel compositions / user materials, 1-5 radial zones, solid and annular pellets, gap 0 "
                 "or >0 (radiating), temperature-dependent clad; powers zero .. extreme (iteration-limit exit); non-trivial = "
                 "one (pin model, power level) evaluation")
-    ctx.prove("Dassh.Props.C13")
+    try:
+        generate(ctx)
+    except Exception:
+        import traceback
+        ctx.problem("trace-failed", "c13 cladding tracer", traceback.format_exc()[-1500:])
+    ctx.prove("Dassh.Props.C13", also=["Dassh.Gen.C13Clad"])
     ctx.prove("Dassh.Props.C13Annular")
     del MODEL_REQ[:]
     oracle(ctx, rng, 600 if ctx.thorough else 150)
